@@ -86,7 +86,9 @@ CFG = {
         "a divergence from S is attributed to a recorded finding only when the faithful model I reproduces the observation "
         "through the diverging op and that op lies in that finding's region (tags computed inside Coq)",
     ],
-    "predicates": {"C07.tag13_splice_fastpath_ignores_prototype": _tag(13, r"OSplice")},
+    "predicates": {"C07.tag13_splice_fastpath_ignores_prototype": _tag(13, r"OSplice"),
+                   "C07.tag14_length_valueof_switches_storage": _tag(14, r"OSetLenRe"),
+                   "C07.tag15_length_valueof_readonly_same_value": _tag(15, r"OSetLenRe")},
     "manifest": {
         "text": ("proof: the Array exotic object (ArraySetLength, index [[DefineOwnProperty]], [[Set]], delete, get/has with holes) is "
                  "modelled as spec S over a finite map; goja's dense (values[]+counters) and sparse (sorted items[]) storages, both "
